@@ -336,6 +336,15 @@ func cmdCheck(args []string) {
 	if len(names) < pc.MinObligations || len(names) == 0 {
 		structural = append(structural, fmt.Sprintf("only %d obligations generated, expected at least %d", len(names), pc.MinObligations))
 	}
+	crossChecked := 0
+	for _, o := range all {
+		if len(o.Cross) > 0 {
+			crossChecked++
+		}
+		if o.Disagree {
+			structural = append(structural, fmt.Sprintf("solver disagreement on %s: %s says %s, others %v", o.Name, o.Solver, o.Status, o.Cross))
+		}
+	}
 
 	// evidence
 	var fnsUnder []string
@@ -408,6 +417,7 @@ func cmdCheck(args []string) {
 			"vcgen_s":                  genS,
 			"samples":                  samples,
 			"covers_checked":           len(coverNames),
+			"cross_checked_by_other_solvers": crossChecked,
 			"covers_unreachable":       undecided,
 			"known_findings":           known,
 			"known_finding_obligations": knownObs,
